@@ -397,7 +397,9 @@ let header_case (toks : string list) : string =
 let transport_case (toks : string list) : string =
   match toks with
   | "X" :: _thread :: sizes :: rest ->
-    let sizes = List.map int_of_string (List.filter (fun x -> x <> "") (String.split_on_char ',' sizes)) in
+    (* a size followed by 'm' is a write issued with MSG_MORE: flags are not in the model (the harness's more= field is judged by the oracle) *)
+    let strip_m x = if x <> "" && x.[String.length x - 1] = 'm' then String.sub x 0 (String.length x - 1) else x in
+    let sizes = List.map (fun x -> int_of_string (strip_m x)) (List.filter (fun x -> x <> "") (String.split_on_char ',' sizes)) in
     let script = match rest with
       | [ sc ] -> List.map (fun x -> if x.[0] = 'w' then M.WouldBlock else M.Acc (nat_of_int (int_of_string (String.sub x 1 (String.length x - 1)))))
                     (List.filter (fun x -> x <> "") (String.split_on_char ',' sc))
@@ -411,6 +413,8 @@ let transport_case (toks : string list) : string =
         match List.find_opt (fun (p, _) -> int_of_nat p = i) st.M.settled0 with
         | Some (_, v) -> string_of_int (int_of_nat v) | None -> "P") sizes in
     Printf.sprintf "X bytes=%d content=1 calls=%d p=%s twice=0" (List.length st.M.wire) (int_of_nat st.M.sends) (String.concat "," vals)
+  | [ "F"; _thread; _delay; spec ] when List.exists (fun x -> x <> "" && x.[0] = 't') (String.split_on_char ',' spec) ->
+    "UNSUPPORTED-BY-MODEL (a file that shrinks after it was queued: its write fails, the others are delivered; judged by the oracle)"
   | [ "F"; _thread; _delay; spec ] ->
     (* memory and file buffers are the same to the model: a FIFO of byte strings; sizes scaled down 1:64 above 64 kB *)
     let sizes = List.map (fun x -> int_of_string (String.sub x 1 (String.length x - 1))) (List.filter (fun x -> x <> "") (String.split_on_char ',' spec)) in
@@ -614,6 +618,10 @@ let client_case (toks : string list) : string =
              | "g" -> push (now + timeout * 7 / 10) (`Resp (c, gen.(c), false))
              | "x" -> push (now + 1) (`Resp (c, gen.(c), true))
              | "X" -> push (now + 1) (`Close (c, gen.(c)))
+             (* answered; then bytes nobody asked for arrive (or the server closes): the client gives the connection up *)
+             | "U" | "P" | "S" | "W" -> push (now + 1) (`Resp (c, gen.(c), false)); push (now + 61) (`Close (c, gen.(c)))
+             (* a response the client can not parse: the request fails, the connection is given up *)
+             | "D" -> push (now + 1) (`Close (c, gen.(c)))
              | "l" -> push (now + timeout + 300) (`Resp (c, gen.(c), false))
              | _ -> ())
           end
@@ -761,10 +769,16 @@ let kv_pairs (s : string) : (M.ascii list * M.ascii list) list =
 
 let wire_case (toks : string list) : string =
   match toks with
-  | [ "P"; code; cap; server; location; cookies; body ] ->
+  | "P" :: code :: cap :: server :: location :: cookies :: body :: rest ->
+    let raw = match rest with
+      | [ r ] when String.length r > 4 && String.sub r 0 4 = "raw=" ->
+        (match String.split_on_char ':' (String.sub r 4 (String.length r - 4)) with
+         | [ n; v ] -> [ (bytes_of_hex n, bytes_of_hex v) ] | _ -> [])
+      | _ -> [] in
     let hs = [ (bytes_of_string "Connection", bytes_of_string "Keep-Alive") ]
              @ (if server = "-" then [] else [ (bytes_of_string "Server", bytes_of_hex server) ])
-             @ (if location = "-" then [] else [ (bytes_of_string "Location", bytes_of_hex location) ]) in
+             @ (if location = "-" then [] else [ (bytes_of_string "Location", bytes_of_hex location) ])
+             @ raw in
     let cs = List.map (fun (k, v) -> k @ (ascii_of_int 61 :: v)) (kv_pairs cookies) in
     (match M.put_on_wire (nat_of_int (int_of_string cap)) (n_of_int (int_of_string code)) hs cs (bytes_of_hex body) with
      | M.Emitted (b, n) -> Printf.sprintf "P emitted %s size=%d" (hex_of_string (canon_wire (str_of_bytes b))) (int_of_nat n)
